@@ -749,6 +749,7 @@ def run(ck: Check) -> None:
     # the colliding cache keys: (a, namespace x) and (x/a, no namespace) are both cached as "x/a"
     probe_key_collision(ck)
     probe_falsy_namespace(ck)
+    probe_equal_globals(ck)
 
     preamble = "\n".join(I_cfg.defs + I_store.defs + I_req.defs + I_resp.defs)
     mm = ck.coq_mismatches("hist", IMPORTS, "run_case_guarded", "obs_eqb", "case", "list response", cases, expected,
@@ -822,6 +823,42 @@ def probe_falsy_namespace(ck: Check) -> None:
                     break
 
 
+def probe_equal_globals(ck: Check) -> None:
+    """Globals that COMPARE EQUAL but are different values (1, True, 1.0; equal datetimes in different zones would be the same): a
+    cache hit must be bound to the globals of THIS request, as the non-caching loader binds them (oracle only; the model's global is
+    a number compared by value, which cannot tell these apart)."""
+    import itertools
+
+    from liquid import CachingDictLoader, DictLoader, Environment
+
+    src = {"a": "{{ g }}|{% if g == true %}yes{% else %}no{% endif %}|{{ h }}"}
+    values = [1, True, 1.0, "1"]
+    for seq in itertools.permutations(values, 3):
+        for use_async in (False, True):
+            for extra in ({}, {"h": "H"}):
+                cenv = Environment(loader=CachingDictLoader(src, capacity=4), globals=dict(extra))
+                penv = Environment(loader=DictLoader(src), globals=dict(extra))
+                for i, v in enumerate(seq):
+                    g = {"g": v}
+                    try:
+                        t = run_async(cenv.get_template_async("a", globals=g)) if use_async else cenv.get_template("a", globals=g)
+                        got = (t.render(), type(t.globals.get("g")).__name__)
+                    except Exception as e:  # noqa: BLE001
+                        got = ("ERR:" + classify_exc(e), "")
+                    pt = penv.get_template("a", globals=g)
+                    want = (pt.render(), type(pt.globals.get("g")).__name__)
+                    ck.count("probe.equal-globals")
+                    ck.traces += 1
+                    if got != want:
+                        shown = [repr(x) for x in seq[: i + 1]]
+                        ck.violation(
+                            "impl-violation", "c23:equal-but-different-globals:" + ("async" if use_async else "sync"),
+                            f"caching loader, requests for 'a' ({src['a']!r}) with globals g = {shown}: the last one gives {got!r} where the "
+                            f"non-caching loader gives {want!r} (values that compare equal are still different data)",
+                            {"type": "equal-globals", "sequence": shown, "async": use_async, "got": got, "non_caching": want})
+                        break
+
+
 def probe_key_collision(ck: Check) -> None:
     """Known limitation of cache_key (not repaired): f"{namespace}/{name}" is not injective when names contain '/'."""
     from liquid import CachingDictLoader, DictLoader, Environment
@@ -841,11 +878,12 @@ def probe_key_collision(ck: Check) -> None:
             {"type": "collision", "first": first, "second": second, "non_caching": want})
 
 
+PROBES = {"collision": probe_key_collision, "falsy-namespace": probe_falsy_namespace, "equal-globals": probe_equal_globals}
+
+
 def replay(data) -> int:
     case = data["case"]
-    if case.get("type") == "collision":
-        import tempfile
-
+    if case.get("type") in PROBES:
         class _Ck:
             def __init__(self):
                 self.v, self.traces = [], 0
@@ -857,7 +895,7 @@ def replay(data) -> int:
                 self.v.append(a)
 
         ck = _Ck()
-        probe_key_collision(ck)  # type: ignore[arg-type]
+        PROBES[case["type"]](ck)  # type: ignore[arg-type]   (the probes are small closed families: re-run, report what fails)
         for v in ck.v:
             print(v[2])
         print(("VIOLATION reproduced" if ck.v else "not reproduced") + f" property={data['property']}")
